@@ -161,6 +161,7 @@ func WorkerMain(p *Property, o WorkerOpts) int {
 
 	var cur, curStart atomic.Int64
 	cur.Store(-1)
+	var stp atomic.Pointer[WorkerStats] // what has been measured so far (sent along when the watchdog ends the process)
 	hang := 30 * time.Second
 	if p.HangSeconds > 0 {
 		hang = time.Duration(p.HangSeconds) * time.Second
@@ -174,6 +175,10 @@ func WorkerMain(p *Property, o WorkerOpts) int {
 			}
 			send(Msg{T: "p", I: i}, true)
 			if st := curStart.Load(); st != 0 && time.Since(time.Unix(0, st)) > hang {
+				// the main goroutine is stuck inside the case: its statistics are stable
+				if part := stp.Load(); part != nil {
+					send(Msg{T: "partial", I: i, Done: part}, true)
+				}
 				send(Msg{T: "hang", I: i}, true)
 				cleanup()
 				os.Exit(3)
@@ -190,6 +195,7 @@ func WorkerMain(p *Property, o WorkerOpts) int {
 	}
 
 	st := &WorkerStats{Skips: map[string]int64{}, Classes: map[string]int64{}, ClassSample: map[string]json.RawMessage{}, ViolByKey: map[string]int64{}}
+	stp.Store(st)
 	var hashes []uint64
 	start := time.Now()
 	var idx int64 = -1
